@@ -209,7 +209,22 @@ func mTrim(f *frame, st *State, ins *ssa.Call, args []Val) Val {
 func mTrimSpace(f *frame, st *State, ins *ssa.Call, args []Val) Val {
 	s, ms := bytesOf(st, args[0])
 	f.ex.assumed["bytes.TrimSpace modelled for ASCII white space only (non-ASCII Unicode spaces abstracted)"] = true
-	return trimModel(f, st, s, ms, []byte{' ', '\t', '\n', '\v', '\f', '\r'}, true, true, "trimspace")
+	return f.ex.trimSpaceOf(st, ms, s, true)
+}
+
+// trimSpaceOf: bytes.TrimSpace as a deterministic function of its argument (so that contracts
+// can name the same result): bounds are uninterpreted functions of (mem, off, len), constrained
+// to be the maximal trim of ASCII white space.
+func (ex *Exec) trimSpaceOf(st *State, ms T, s VSlice, facts bool) VSlice {
+	lo := app(ex.decls.fun("trimsp_lo", []string{SBytes, SInt, SInt}, SInt), ms, s.Off, s.Len)
+	hi := app(ex.decls.fun("trimsp_hi", []string{SBytes, SInt, SInt}, SInt), ms, s.Off, s.Len)
+	set := []byte{' ', '\t', '\n', '\v', '\f', '\r'}
+	if facts {
+		st.assume(tAnd(tLe("0", lo), tLe(lo, hi), tLe(hi, s.Len)))
+		st.assume(tImp(tLt(lo, hi), tNot(inSet(tSel(ms, tIdx(s.Off, lo)), set))))
+		st.assume(tImp(tLt(lo, hi), tNot(inSet(tSel(ms, tIdx(s.Off, tSub(hi, "1"))), set))))
+	}
+	return VSlice{R: s.R, Elem: s.Elem, Off: tAdd(s.Off, lo), Len: tSub(hi, lo), Cap: tSub(s.Cap, lo), Str: s.Str}
 }
 
 func mTrimLeft(f *frame, st *State, ins *ssa.Call, args []Val) Val {
@@ -557,5 +572,29 @@ func init() {
 		st.ghost["xml_src"] = src
 		st.ghost["xml_err"] = VInt{err}
 		return out
+	}
+}
+
+// mime.FormatMediaType: the result is a function of the type string and the parameter map.
+func (ex *Exec) fmtMediaOf(st *State, ms T, s VSlice, mapID T) VSlice {
+	fm := ex.decls.fun("fmtMedia_mem", []string{SBytes, SInt, SInt, SInt}, SBytes)
+	fl := ex.decls.fun("fmtMedia_len", []string{SBytes, SInt, SInt, SInt}, SInt)
+	r := ex.newRegion("fmtMedia", false, true)
+	st.mem[r] = []T{app(fm, ms, s.Off, s.Len, mapID)}
+	ln := app(fl, ms, s.Off, s.Len, mapID)
+	return VSlice{R: r, Elem: byteType, Off: "0", Len: ln, Cap: ln, Str: true}
+}
+
+func init() {
+	models["mime.FormatMediaType"] = func(f *frame, st *State, ins *ssa.Call, a []Val) Val {
+		ex := f.ex
+		s, ms := bytesOf(st, a[0])
+		id := T("0")
+		if m, ok := a[1].(VMap); ok {
+			id = m.ID
+		}
+		r := ex.fmtMediaOf(st, ms, s, id)
+		st.assume(tAnd(tLe("0", r.Len), tLe(r.Len, two48)))
+		return r
 	}
 }
